@@ -8,7 +8,7 @@ import mkmanifest, mkdesign_tables
 
 MODELS = {
     "C01": ("Model/Hap.v, Model/Spec.v; Proofs/HapProofs.v", "stack"), "C02": ("Model/Hap.v; Proofs/HapProofs.v", "stack"),
-    "C03": ("Model/Hap.v; Proofs/HapProofs.v", "stack"), "C04": ("Model/Hap.v, Model/Spec.v, Model/Framing.v; Proofs/HapProofs.v, SpecProofs.v, FramingProofs.v", "stack"),
+    "C03": ("Model/Hap.v; Proofs/HapProofs.v", "stack"), "C04": ("Model/Hap.v, Model/Spec.v, Model/Framing.v, Model/Srp.v; Proofs/HapProofs.v, SpecProofs.v, FramingProofs.v, SrpProofs.v (and SrpFast.v for the evaluation of the SRP model)", "stack + srp + config"),
     "C05": ("Model/Framing.v, Base/ChaCha20Poly1305 + HKDF-SHA-512; Proofs/FramingProofs.v, Base/ChaChaPolyProofs.v", "frame"),
     "C06": ("Model/Framing.v; Proofs/FramingProofs.v", "frame"), "C07": ("Model/ConnRead.v; Proofs/ConnReadProofs.v", "conn"),
     "C08": ("Model/ConnWrite.v; Proofs/ConnWriteProofs.v", "connw"), "C09": ("Model/Hap.v (do_get / do_put), Model/Charac.v; Proofs/HapProofs.v", "stack"),
